@@ -167,7 +167,7 @@ class Closure:
 _BUILTINS = {
     "len": len, "list": list, "sorted": _sorted, "reversed": lambda x: list(reversed(x)), "range": lambda *a: list(range(*a)), "int": int, "bool": bool,
     "min": min, "max": max, "set": lambda x=(): set(x), "tuple": tuple, "enumerate": lambda x, start=0: list(enumerate(x, start)), "zip": lambda *a: list(zip(*a)), "sum": sum,
-    "abs": abs, "str": str, "dict": dict, "any": any, "all": all, "divmod": divmod, "frozenset": frozenset, "repr": repr, "id": id, "bytes": bytes,
+    "abs": abs, "filter": lambda f, xs: [x for x in xs if f(x)], "map": lambda f, *xs: [f(*a) for a in zip(*xs)], "str": str, "dict": dict, "any": any, "all": all, "divmod": divmod, "frozenset": frozenset, "repr": repr, "id": id, "bytes": bytes,
 }
 
 
